@@ -299,6 +299,8 @@ END = {
     'first': ('{c}.first(-9)', lambda g, p, c: next(iter(g), -9), None),
     'any': ('{c}.any({L})', lambda g, p, c: any(map(
         c.fn(p['lid'], PRED[p['P']][1]), g)), 'P'),
+    # without a predicate: is there a first element
+    'any-nopred': ('{c}.any()', lambda g, p, c: any(True for _ in g), None),
     'all': ('{c}.all({L})', lambda g, p, c: all(map(
         c.fn(p['lid'], PRED[p['P']][1]), g)), 'P'),
     'indexOf': ('{c}.indexOf({v})', lambda g, p, c: next(
@@ -474,6 +476,10 @@ def pipelines(draw):
             s['n'] = draw(st.integers(0, 6))
         if op in ('delete', 'replace'):
             s['m'] = draw(st.integers(0, 4))
+        if op == 'delete' and draw(st.booleans()):
+            # a position before the start: [position, position + count)
+            # covers a prefix or nothing at all
+            s['n'] = draw(st.integers(-8, -1))
         if op == 'slice':
             s['w'] = draw(st.integers(1, 4))
         steps.append(s)
@@ -505,6 +511,16 @@ def _singles(run):
     for op in sorted(END):
         s = {'op': op, 'lid': 1, 'P': 'm3', 'v': 4}
         check_pipeline(run, {'kind': 'pipeline', 'steps': [s], 'k': 1})
+        # ... and behind a lazy stage with a lambda
+        check_pipeline(run, {'kind': 'pipeline', 'steps': [
+            {'op': 'select', 'lid': 1, 'S': 'dbl'}, dict(s, lid=2)], 'k': 1})
+    # positions before the start
+    for n in (-1, -2, -5):
+        for m in (1, 3):
+            for k in (0, 2):
+                check_pipeline(run, {'kind': 'pipeline', 'steps': [
+                    {'op': 'select', 'lid': 1, 'S': 'dbl'},
+                    {'op': 'delete', 'lid': 2, 'n': n, 'm': m}], 'k': k})
 
 
 def run(run):
